@@ -539,8 +539,10 @@ def run(ctx: Context, rep) -> None:
     # call (same rule as C04.fresh)
     from sa.rules.c04 import check_fresh_records
     check_fresh_records(ctx, rep, "C16.fresh")
-
-
+    # a rewritten list is re-hashed and its parent updated on every exit of the
+    # filler (same check as C18.publish)
+    from sa.rules import shared as _sh16
+    _sh16.check_exit_publishes(ctx, rep, "C16.publish")
 
 _U = "src/sedpack/io/utils.py"
 SELFTESTS = [
